@@ -31,4 +31,111 @@ def parseModel (A : Dfa) (bytes : List Nat) : Option (List Nat) :=
   | some (q, ms) => if A.isFinal q then some ms else none
   | none => none
 
+/-! ## Structure emitted by `configure` / `load` / `parse` (compared with the real circuit) -/
+
+/-- `AutomatonChip::configure`: the lookup "automaton transition check" multiplies the selector
+`q_automaton` with four advice cells and looks the tuple up in the four table columns:
+`(advice column, rotation, table column)` with advice columns 0 = state, 1 = letter, 2 = output.
+`rowsOk`/`layoutSat` read a row exactly this way: `(state@0, letter@0, state@1, output@0)`. -/
+def lookupShape : List (Nat × Nat × Nat) := [(0, 0, 0), (1, 0, 1), (0, 1, 2), (2, 0, 3)]
+
+def lookupText : String :=
+  " ".intercalate (lookupShape.map fun (a, r, t) => s!"q*a{a}@{r}>t{t}")
+
+/-- `AutomatonChip::load`, main transitions: one row `(s + off, b, t + off, m)` per entry of the
+transition map, in the order of `(s, b)`. -/
+def transRows (A : Dfa) (off : Nat) : List (Nat × Nat × Nat × Nat) :=
+  (List.range A.tbl.size).filterMap fun i =>
+    match (A.tbl[i]?).join with
+    | some (t, m) => some (i / 256 + off, i % 256, t + off, m)
+    | none => none
+
+/-- `AutomatonChip::load`, dummy transitions `(f + off, 256, 0, 0)` for the final states. -/
+def finalRows (A : Dfa) (off : Nat) : List (Nat × Nat × Nat × Nat) :=
+  (List.range A.finals.size).filterMap fun f =>
+    if A.isFinal f then some (f + off, 256, 0, 0) else none
+
+/-- `AutomatonChip::load`: the whole table (the unused rows of the table columns repeat the
+first entry, the dummy transition). -/
+def tableRows (A : Dfa) (off : Nat) : List (Nat × Nat × Nat × Nat) :=
+  (0, 0, 0, 0) :: (transRows A off ++ finalRows A off)
+
+/-- How the permutation argument constrains a cell of the parsing region: equal to a constant
+(`assign_fixed` + `copy_advice`), copied from another advice cell (the input byte), or free
+(chosen by the prover). -/
+inductive Pin where
+  | fixed (c : Nat)
+  | copy
+  | free
+  deriving Repr, DecidableEq
+
+/-- A cell: assigned value and its pin. -/
+abbrev PCell := Nat × Pin
+
+/-- One row of the region "parsing layout": selector `q_automaton`, state cell, and (on enabled
+rows) letter and output cells. -/
+structure PRow where
+  q : Bool
+  state : PCell
+  letter : Option PCell
+  out : Option PCell
+
+/-- `AutomatonChip::parse`: the rows laid out for the input `bytes`, given the value and pin of
+the current state cell, the values `sts` of the following state cells (one per byte — assigned
+by `apply_one_transition`, free — plus the last one, copied from the constant 0 by
+`assert_final_state`) and the values `outs` of the output cells (free).
+Row per byte: selector on, letter copied from the input. Sentinel row: selector on, letter
+pinned to 256, output pinned to 0. Last row: selector off, state pinned to 0. -/
+def mkRows : PCell → List Nat → List Nat → List Nat → List PRow
+  | cur, [z], [], [] =>
+    [⟨true, cur, some (256, .fixed 256), some (0, .fixed 0)⟩, ⟨false, (z, .fixed 0), none, none⟩]
+  | cur, s' :: sts, b :: bs, o :: os =>
+    ⟨true, cur, some (b, .copy), some (o, .free)⟩ :: mkRows (s', .free) sts bs os
+  | _, _, _, _ => []
+
+/-- The permutation argument on one cell. -/
+def pinOk : PCell → Prop
+  | (v, .fixed c) => v = c
+  | _ => True
+
+/-- All constraints on the region: copy constraints to constants, and on every enabled row the
+lookup of `(state@0, letter@0, state@1, output@0)`; the last row is not enabled. -/
+def layoutSat (A : Dfa) (off : Nat) : List PRow → Prop
+  | [] => False
+  | [r] => r.q = false ∧ pinOk r.state
+  | r :: r' :: rest =>
+    pinOk r.state ∧
+    (∃ l o, r.q = true ∧ r.letter = some l ∧ r.out = some o ∧ pinOk l ∧ pinOk o ∧
+      inTable A off (r.state.1, l.1, r'.state.1, o.1)) ∧
+    layoutSat A off (r' :: rest)
+
+/-- States visited and markers emitted by the run from `s` (`apply_one_transition` per byte);
+`none` when the run is stuck (`error_if_known_and`: the honest prover cannot go on). -/
+def Dfa.runTrace (A : Dfa) : Nat → List Nat → Option (List Nat × List Nat)
+  | _, [] => some ([], [])
+  | s, b :: bs =>
+    match A.lookup s b with
+    | none => none
+    | some (t, m) => (A.runTrace t bs).map fun p => (t :: p.1, m :: p.2)
+
+/-- The rows the honest prover lays out (whether or not the last state is final). -/
+def parseRows (A : Dfa) (off : Nat) (bytes : List Nat) : Option (List PRow) :=
+  (A.runTrace A.init bytes).map fun (sts, ms) =>
+    mkRows (A.init + off, .fixed (A.init + off)) (sts.map (· + off) ++ [0]) bytes ms
+
+def Pin.text : Pin → String
+  | .fixed c => s!"={c}"
+  | .copy => "c"
+  | .free => "f"
+
+def PCell.text (c : PCell) : String := s!"{c.1}{c.2.text}"
+
+def PRow.text (r : PRow) : String :=
+  let q := if r.q then "1" else "0"
+  match r.letter, r.out with
+  | some l, some o => s!"{q}:{PCell.text r.state}:{PCell.text l}:{PCell.text o}"
+  | _, _ => s!"{q}:{PCell.text r.state}"
+
+def rowText (r : Nat × Nat × Nat × Nat) : String := s!"{r.1}.{r.2.1}.{r.2.2.1}.{r.2.2.2}"
+
 end MidnightZK.C19
